@@ -1332,7 +1332,7 @@ func (m *RedisMessage) AsFtSearch() (total int64, docs []FtSearchDoc, err error)
 		return 0, nil, err
 	}
 	if m.IsMap() {
-		for i := 0; i < len(m.values()); i += 2 {
+		for i := 0; i+1 < len(m.values()); i += 2 {
 			switch m.values()[i].string() {
 			case "total_results":
 				total = m.values()[i+1].intlen
@@ -1340,7 +1340,7 @@ func (m *RedisMessage) AsFtSearch() (total int64, docs []FtSearchDoc, err error)
 				records := m.values()[i+1].values()
 				docs = make([]FtSearchDoc, len(records))
 				for d, record := range records {
-					for j := 0; j < len(record.values()); j += 2 {
+					for j := 0; j+1 < len(record.values()); j += 2 {
 						switch record.values()[j].string() {
 						case "id":
 							docs[d].Key = record.values()[j+1].string()
@@ -1383,11 +1383,15 @@ func (m *RedisMessage) AsFtSearch() (total int64, docs []FtSearchDoc, err error)
 		for i := 1; i < len(m.values()); i++ {
 			doc := FtSearchDoc{Key: m.values()[i].string()}
 			if wscore {
-				i++
+				if i++; i >= len(m.values()) {
+					break // truncated reply
+				}
 				doc.Score, _ = strconv.ParseFloat(m.values()[i].string(), 64)
 			}
 			if wattrs {
-				i++
+				if i++; i >= len(m.values()) {
+					break // truncated reply
+				}
 				doc.Doc, _ = m.values()[i].AsStrMap()
 			}
 			docs = append(docs, doc)
@@ -1403,7 +1407,7 @@ func (m *RedisMessage) AsFtAggregate() (total int64, docs []map[string]string, e
 		return 0, nil, err
 	}
 	if m.IsMap() {
-		for i := 0; i < len(m.values()); i += 2 {
+		for i := 0; i+1 < len(m.values()); i += 2 {
 			switch m.values()[i].string() {
 			case "total_results":
 				total = m.values()[i+1].intlen
@@ -1411,7 +1415,7 @@ func (m *RedisMessage) AsFtAggregate() (total int64, docs []map[string]string, e
 				records := m.values()[i+1].values()
 				docs = make([]map[string]string, len(records))
 				for d, record := range records {
-					for j := 0; j < len(record.values()); j += 2 {
+					for j := 0; j+1 < len(record.values()); j += 2 {
 						switch record.values()[j].string() {
 						case "extra_attributes":
 							docs[d], _ = record.values()[j+1].AsStrMap()
